@@ -143,6 +143,14 @@ theorem getitem_refuses_iff_empty (first last step : Int) (hs : step ≠ 0) :
     (∃ e, getitemAxisItem first last step = .error e) ↔ sliceLen first last step = 0 :=
   getitemAxisItem_err hs
 
+/-- **Negative step ending at index 0**: `v[k::-s]` (stop omitted) and `v[k:-n-1:-s]` (the only explicit stop that
+includes index 0) on an axis of size `n`, `0 ≤ k < n`, `s ≥ 1`: accepted, first voxel `k`, stride `-s`, `⌊k/s⌋+1` voxels
+(`k, k-s, …` down to the last index `≥ 0`) — so index 0 is included exactly when `s` divides `k`. -/
+theorem getitem_reverse_to_zero (k s n : Int) (hk : 0 ≤ k ∧ k < n) (hs : 0 < s) :
+    axisOfItem (some (Item.slice (some k) none (some (-s)))) n = .ok ⟨k, -s, k / s + 1, k / s + 1⟩ ∧
+    axisOfItem (some (Item.slice (some k) (some (-n - 1)) (some (-s)))) n = .ok ⟨k, -s, k / s + 1, k / s + 1⟩ :=
+  ⟨reverse_to_zero_axis hk hs, reverse_to_zero_axis_explicit hk hs⟩
+
 /-- An int index `k` with `-n ≤ k < n` on an axis of size `n` is accepted and selects exactly plane `k`
 (`k + n` for negative `k`), one voxel thick — `checkInt`, `intToSlice` (the `-1` special case), `slice.indices` and the
 size arithmetic composed. -/
@@ -213,62 +221,83 @@ theorem toPatientOrientation_refused_on_slide (g : Geom) (o : List Char) :
 
 /-! ## new voxels are padding -/
 
-/-- `pad` on a volume: retained voxels (provenance defined) were treated above; here the new ones.
-CONSTANT: the constant (cast to the dtype of the array); the dtype is kept. -/
-theorem pad_new_voxels_constant (coord : Coord) (v : Vol) (wd : PadWidth) (o : PadOpts) (w : VStep)
-    (hm : o.mode = "CONSTANT") (h : (SOp.pad wd o).applyVol coord v = .ok w) (j : I3) (hj : w.2 j = none) (c : List Nat) :
+/-- All three padding operations pad through `Vol.padStep`: `pad` and `pad_to_spatial_shape` on the volume itself,
+`pad_or_crop_to_spatial_shape` on the cropped volume (whose provenance is then composed with the crop's). -/
+theorem padding_ops_use_padStep (coord : Coord) (v : Vol) (w : VStep) :
+    (∀ wd o, (SOp.pad wd o).applyVol coord v = .ok w → ∃ r, padG AxMap.alen v.geom wd = .ok r ∧ v.padStep r o = .ok w) ∧
+    (∀ s o, (SOp.padTo s o).applyVol coord v = .ok w →
+      ∃ wd r, padToWidth v.geom s = .ok wd ∧ padG AxMap.alen v.geom wd = .ok r ∧ v.padStep r o = .ok w) ∧
+    (∀ s o, (SOp.padOrCropTo s o).applyVol coord v = .ok w →
+      ∃ items wd r1 r2 w2, padOrCropPlan v.geom s = .ok (items, wd) ∧ getitemG AxMap.alen v.geom items = .ok r1 ∧
+        padG AxMap.alen (v.reindex r1).1.geom wd = .ok r2 ∧ (v.reindex r1).1.padStep r2 o = .ok w2 ∧
+        w = (w2.1, w2.2.comp (v.reindex r1).2)) := by
+  refine ⟨fun wd o h => ?_, fun s o h => ?_, fun s o h => ?_⟩
+  · simp only [SOp.applyVol] at h
+    obtain ⟨_, _, h⟩ := bind_ok.mp h
+    obtain ⟨r, hr, h⟩ := bind_ok.mp h
+    exact ⟨r, hr, h⟩
+  · simp only [SOp.applyVol] at h
+    obtain ⟨wd, hw, h⟩ := bind_ok.mp h
+    obtain ⟨_, _, h⟩ := bind_ok.mp h
+    obtain ⟨r, hr, h⟩ := bind_ok.mp h
+    exact ⟨wd, r, hw, hr, h⟩
+  · simp only [SOp.applyVol] at h
+    obtain ⟨⟨items, wd⟩, hpl, h⟩ := bind_ok.mp h
+    dsimp only at h
+    obtain ⟨r1, hr1, h⟩ := bind_ok.mp h
+    obtain ⟨_, _, h⟩ := bind_ok.mp h
+    obtain ⟨r2, hr2, h⟩ := bind_ok.mp h
+    obtain ⟨⟨v2, p2⟩, hv2, h⟩ := bind_ok.mp h
+    simp only [pure, Except.pure, Except.ok.injEq] at h
+    exact ⟨items, wd, r1, r2, (v2, p2), hpl, hr1, hr2, hv2, h.symm⟩
+
+/-- **New voxels are padding** (`Vol.padStep`, i.e. every padding operation): retained voxels (provenance defined) were
+treated above; here the new ones.  CONSTANT: the constant (cast to the dtype of the array); the dtype is kept. -/
+theorem pad_new_voxels_constant (v : Vol) (r : GStep) (o : PadOpts) (w : VStep)
+    (hm : o.mode = "CONSTANT") (h : v.padStep r o = .ok w) (j : I3) (hj : w.2 j = none) (c : List Nat) :
     w.1.arr j c = castTo v.isInt o.cval ∧ w.1.isInt = v.isInt := by
-  simp only [SOp.applyVol] at h
-  obtain ⟨_, _, h⟩ := bind_ok.mp h
-  obtain ⟨r, _, h⟩ := bind_ok.mp h
   simp only [Vol.padStep] at h
   obtain ⟨⟨a, b⟩, ha, h⟩ := bind_ok.mp h
   simp only [pure, Except.pure, Except.ok.injEq] at h
   subst h
   exact padArray_constant hm ha j (provOf_none hj) c
 
-/-- EDGE: the value of the nearest voxel of the input (index clamped per axis), which is a voxel. -/
-theorem pad_new_voxels_edge (coord : Coord) (v : Vol) (wd : PadWidth) (o : PadOpts) (w : VStep) (hp : v.geom.Pos)
-    (hm : o.mode = "EDGE") (h : (SOp.pad wd o).applyVol coord v = .ok w) (j : I3) (hj : w.2 j = none) (c : List Nat) :
-    ∃ i, v.geom.inRange i = true ∧ w.1.arr j c = v.arr i c ∧
-      ∃ f : I3 → I3, (∀ j, w.1.geom.pos j = v.geom.pos (f j)) ∧ i = v.geom.clamp (f j) := by
-  simp only [SOp.applyVol] at h
-  obtain ⟨_, _, h⟩ := bind_ok.mp h
-  obtain ⟨r, hr, h⟩ := bind_ok.mp h
-  have hs := (padG_sound AxMap.alen szOk_alen hp hr).1
+/-- EDGE: the value of the nearest voxel of the (cropped) input — the source index clamped per axis, which is a voxel. -/
+theorem pad_new_voxels_edge (v : Vol) (r : GStep) (o : PadOpts) (w : VStep) (hp : v.geom.Pos)
+    (hm : o.mode = "EDGE") (h : v.padStep r o = .ok w) (j : I3) (hj : w.2 j = none) (c : List Nat) :
+    v.geom.inRange (v.geom.clamp (r.2 j)) = true ∧ w.1.arr j c = v.arr (v.geom.clamp (r.2 j)) c := by
   simp only [Vol.padStep] at h
   obtain ⟨⟨a, b⟩, ha, h⟩ := bind_ok.mp h
   simp only [pure, Except.pure, Except.ok.injEq] at h
   subst h
-  exact ⟨v.geom.clamp (r.2 j), clamp_inRange hp _, (padArray_edge hm ha j (provOf_none hj) c).1, r.2, hs.position, rfl⟩
+  exact ⟨clamp_inRange hp _, (padArray_edge hm ha j (provOf_none hj) c).1⟩
+
+/-- per axis the clamped index is the nearest one inside `0 .. n-1` -/
+theorem clamp_is_nearest (x n k : Int) (hk : 0 ≤ k ∧ k < n) :
+    (if clampI x n ≤ x then x - clampI x n else clampI x n - x) ≤ (if k ≤ x then x - k else k - x) :=
+  clampI_nearest k hk
 
 /-- MINIMUM / MAXIMUM / MEAN / MEDIAN over the whole array (no per-channel treatment): every new voxel holds the
 statistic of all input values, cast to the dtype. -/
-theorem pad_new_voxels_statistic (coord : Coord) (v : Vol) (wd : PadWidth) (o : PadOpts) (w : VStep) (mode : PadMode)
+theorem pad_new_voxels_statistic (v : Vol) (r : GStep) (o : PadOpts) (w : VStep) (mode : PadMode)
     (hm : PadMode.parse o.mode = some mode) (hs : isStat mode = true)
     (hpc : (o.perChannel && !(v.cshape.isEmpty || v.cshape == [1])) = false)
-    (h : (SOp.pad wd o).applyVol coord v = .ok w) (j : I3) (hj : w.2 j = none) (c : List Nat) :
+    (h : v.padStep r o = .ok w) (j : I3) (hj : w.2 j = none) (c : List Nat) :
     ∃ x, statOf mode v.values = some x ∧ w.1.arr j c = castTo v.isInt x ∧ w.1.isInt = v.isInt := by
-  simp only [SOp.applyVol] at h
-  obtain ⟨_, _, h⟩ := bind_ok.mp h
-  obtain ⟨r, _, h⟩ := bind_ok.mp h
   simp only [Vol.padStep] at h
   obtain ⟨⟨a, b⟩, ha, h⟩ := bind_ok.mp h
   simp only [pure, Except.pure, Except.ok.injEq] at h
   subst h
   exact padArray_stat_global hm hs hpc ha j (provOf_none hj) c
 
-/-- The same per channel (`per_channel=True`, more than one channel): the statistic of that channel alone; the
-dtype of the array is kept. -/
-theorem pad_new_voxels_per_channel (coord : Coord) (v : Vol) (wd : PadWidth) (o : PadOpts) (w : VStep) (mode : PadMode)
+/-- The same per channel (`per_channel=True`, more than one channel — decision regenerated from source, T9d): the
+statistic of that channel alone; the dtype of the array is kept. -/
+theorem pad_new_voxels_per_channel (v : Vol) (r : GStep) (o : PadOpts) (w : VStep) (mode : PadMode)
     (hm : PadMode.parse o.mode = some mode) (hs : isStat mode = true)
     (hpc : (o.perChannel && !(v.cshape.isEmpty || v.cshape == [1])) = true)
-    (h : (SOp.pad wd o).applyVol coord v = .ok w) (j : I3) (hj : w.2 j = none) (c : List Nat)
+    (h : v.padStep r o = .ok w) (j : I3) (hj : w.2 j = none) (c : List Nat)
     (hc : c ∈ chanIndices v.cshape) :
     ∃ x, statOf mode (v.channelValues c) = some x ∧ w.1.arr j c = castTo v.isInt x ∧ w.1.isInt = v.isInt := by
-  simp only [SOp.applyVol] at h
-  obtain ⟨_, _, h⟩ := bind_ok.mp h
-  obtain ⟨r, _, h⟩ := bind_ok.mp h
   simp only [Vol.padStep] at h
   obtain ⟨⟨a, b⟩, ha, h⟩ := bind_ok.mp h
   simp only [pure, Except.pure, Except.ok.injEq] at h
